@@ -610,7 +610,20 @@ func rulePoolSelfTerminal(r *Run) {
 				fa, ok := st.Addr.(*ssa.FieldAddr)
 				return ok && fieldOfAddr(fa) == fld
 			}
-			if w, _ := (pathQuery{fn: fn, start: in, target: isReturn, barrier: isClear}).find(); w != nil {
+			// cleared after the Put on every path - or before it (`r.z = nil; r.pool.Put(z)`), with nothing stored
+			// into the field afterwards
+			clearedBefore := false
+			if w, _ := (pathQuery{fn: fn, target: func(x ssa.Instruction) bool { return x == in }, barrier: isClear}).find(); w == nil {
+				clearedBefore = true
+				eachInstr(fn, func(x ssa.Instruction) {
+					if st, ok := x.(*ssa.Store); ok && !isNilConst(st.Val) {
+						if fa, ok := st.Addr.(*ssa.FieldAddr); ok && fieldOfAddr(fa) == fld {
+							clearedBefore = false
+						}
+					}
+				})
+			}
+			if w, _ := (pathQuery{fn: fn, start: in, target: isReturn, barrier: isClear}).find(); w != nil && !clearedBefore {
 				r.bad(key, c.Pos(), "%s gives its field %s to the pool and can return without clearing it (%s): the next call uses an object that another request may have taken from the pool", shortFunc(fn), fld.Name(), p.describePath(w))
 				return
 			}
